@@ -691,11 +691,11 @@ CLAIMS = [
     Claim("c07_escape_emissions", "C07", "quick", claim_escapes,
           "string escape writers (R6RS and Emacs), CharEscape::from_escape_table and the compiled ESCAPE table: every byte "
           "is classified and spelled as documented (\\a \\b \\t \\n \\r \\\" \\\\, \\xHH; resp. \\u00HH), written with write_all",
-          "all 256 bytes, both string syntaxes", configs=("fast",), also=("C01", "C02", "C13", "C17")),
+          "all 256 bytes, both string syntaxes", configs=("fast",), also=("C01", "C02", "C13", "C17", "C04")),
     Claim("c07_char_emissions", "C07", "quick", claim_chars,
           "write_scheme_char / write_elisp_char: printable ASCII literally (Emacs: backslash before ()[]\\;|'`#.,), every "
           "other scalar value as lower-case hex through write_fmt",
-          "every Unicode scalar value", configs=("fast",), also=("C01", "C02", "C13", "C17")),
+          "every Unicode scalar value", configs=("fast",), also=("C01", "C02", "C13", "C17", "C04")),
     Claim("c01_print_list_structure", "C01", "quick", claim_print_structure,
           "Printer::print on a list: per cell separator iff not the first, the element, and ` . tail` exactly when the cdr "
           "is neither the empty list nor a pair; end_list after the last cell; errors of any formatter call stop the output",
@@ -1126,7 +1126,7 @@ CLAIMS += [
           "escape of exactly that byte and every other byte is copied in order in fragments [start, i) / [start, len); nothing "
           "is lost, duplicated or copied although it needs an escape; fragment ranges stay in bounds",
           "strings of any length (loop cut with invariant `no escape-set byte pending`, base case and preservation decided)",
-          configs=("fast",), also=("C02", "C07", "C13", "C17")),
+          configs=("fast",), also=("C02", "C07", "C13", "C17", "C04")),
 ]
 
 
